@@ -4,7 +4,8 @@
    hook-exported key sets of the two decoder tables). *)
 From V.lib Require Import Base.
 From V.c04 Require Import C04Model C04AsmModel C04ContainerProofs.
-From V.c03 Require Import C03Model C03Spec C03Registry C03Proofs C03CanonProofs C03LeafModel C03LeafProofs C03LeafBoxProofs C03LeafInstProofs C03StsdProofs C03VseProofs C03LeafTruncProofs C03LeafEncProofs C03DelegateProofs C03DelegateExtProofs C03FactsDefs C03Facts C03ClassProofs C03SencPassModel C03SencPassProofs.
+From V.c03 Require Import C03Model C03Spec C03Registry C03Proofs C03CanonProofs C03LeafModel C03LeafProofs C03LeafBoxProofs C03LeafInstProofs C03StsdProofs C03VseProofs C03LeafTruncProofs C03LeafEncProofs C03DelegateProofs C03DelegateExtProofs C03FactsDefs C03Facts C03ClassProofs C03SencPassModel C03SencPassProofs C03EncHistModel C03EncHistProofs.
+From V.c02 Require C02AggModel C02AggExamples C02AggFragProofs C02AggFileProofs.
 Open Scope N_scope.
 
 (* Encode to an io.Writer and EncodeSW to a slice writer: identical bytes or both fail, for every container tree and
@@ -408,6 +409,58 @@ Theorem C03_senc_pass_break_differs :
 Proof. exact senc_pass_break_differs. Qed.
 Print Assumptions C03_senc_pass_break_differs.
 
+(* ---- third round: encode HISTORIES.  Encode (io.Writer) and EncodeSW (SliceWriter) of MoofBox, MdatBox, Fragment, MediaSegment and File
+   as STATE TRANSFORMERS, one model function per Go text (C03EncHistModel.v) over the aggregate states of C02 (tfhd / trun flags and
+   defaults, trun data offsets, mdat LargeSize, EncOptimize of fragments and segments; OptimizeTfhdTrun, SetTrunDataOffsets and
+   MdatBox.Size exist once in Go and are the C02 models; opaque boxes are agreeing leaves).
+   State AND output after Encode equal state and output after EncodeSW, for every state: *)
+Theorem C03_encode_state_agree :
+  (forall fr, hfrag_w fr = hfrag_sw fr) /\ (forall s, hseg_w s = hseg_sw s) /\ (forall f, hfile_w f = hfile_sw f) /\
+  (forall m, hmoof_w m = hmoof_sw m) /\ (forall m, hmdat_w m = hmdat_sw m).
+Proof. exact encode_pair_agree. Qed.
+Print Assumptions C03_encode_state_agree.
+
+(* hence for EVERY history - any interleaving of Encode, EncodeSW, Size, Info and ARBITRARY state changes in between (HApply g:
+   additions of samples, optimisation switched on or off, ...) - on every File / MediaSegment / Fragment: two histories that differ
+   only in which encoder is called at each encoding step (Encode then EncodeSW, EncodeSW twice, ...) give the same outcome at every
+   step and the same final state *)
+Theorem C03_encode_history_agree :
+  (forall h1 h2 (f : C02AggModel.afile), same_history h1 h2 -> run_hhist hfile_agg f h1 = run_hhist hfile_agg f h2) /\
+  (forall h1 h2 (s : C02AggModel.aseg), same_history h1 h2 -> run_hhist hseg_agg s h1 = run_hhist hseg_agg s h2) /\
+  (forall h1 h2 (fr : C02AggModel.afrag), same_history h1 h2 -> run_hhist hfrag_agg fr h1 = run_hhist hfrag_agg fr h2).
+Proof. exact encode_history_agree. Qed.
+Print Assumptions C03_encode_history_agree.
+
+(* composition with C02: the histories of the C02 aggregate model (one function for both encoders) are histories of the two-text
+   model, and C02_history_file holds for it: once an Encode OR an EncodeSW has succeeded on a well-formed File, every later Size /
+   Info / Encode / EncodeSW, through either text, answers with the same boxes and their total length *)
+Theorem C03_encode_history_c02 :
+  (forall ops f, run_hhist hfile_agg f (map hop_of_aop ops) = C02AggModel.run_hist C02AggModel.afile_step f ops) /\
+  (forall ops s, run_hhist hseg_agg s (map hop_of_aop ops) = C02AggModel.run_hist C02AggModel.aseg_step s ops) /\
+  (forall ops fr, run_hhist hfrag_agg fr (map hop_of_aop ops) = C02AggModel.run_hist C02AggModel.afrag_step fr ops) /\
+  (forall f ops1 o ops2 f1 f2 boxes,
+     snd (run_hhist hfile_agg f (map hop_of_aop ops1)) = f1 -> ~ In C02AggModel.OutPanic (fst (run_hhist hfile_agg f (map hop_of_aop ops1))) ->
+     (o = C02AggModel.OpEncode \/ o = C02AggModel.OpEncodeSW) -> hstep hfile_agg f1 (hop_of_aop o) = (f2, C02AggModel.OutBytes boxes) ->
+     C02AggFileProofs.afile_wf f1 = true ->
+     run_hhist hfile_agg f (map hop_of_aop (ops1 ++ o :: ops2)) =
+       (fst (run_hhist hfile_agg f (map hop_of_aop ops1)) ++ C02AggModel.OutBytes boxes ::
+          map (C02AggFragProofs.expected boxes (lenN (concat boxes))) ops2, f2)).
+Proof.
+  exact (conj (proj1 history_refines_c02) (conj (proj1 (proj2 history_refines_c02)) (conj (proj2 (proj2 history_refines_c02)) encode_history_settles))).
+Qed.
+Print Assumptions C03_encode_history_c02.
+
+(* a stale trun data offset on ONE encoder: an EncodeSW that sets the offsets only while one is unset agrees with Encode on every single
+   encoding of a fresh fragment, and is refuted by EncodeSW, one more sample, EncodeSW (offset 133 kept where 149 is due) *)
+Theorem C03_encode_stale_offset_refuted :
+  same_history stale_hist_sw stale_hist_w /\
+  first_doff (snd (run_hhist hfrag_agg (C02AggExamples.ex_frag false) stale_hist_sw)) = Some 149%Z /\
+  first_doff (snd (run_hhist hfrag_agg (C02AggExamples.ex_frag false) stale_hist_w)) = Some 149%Z /\
+  first_doff (snd (run_hhist hfrag_agg_stale (C02AggExamples.ex_frag false) stale_hist_w)) = Some 149%Z /\
+  first_doff (snd (run_hhist hfrag_agg_stale (C02AggExamples.ex_frag false) stale_hist_sw)) = Some 133%Z.
+Proof. exact stale_offset_refuted. Qed.
+Print Assumptions C03_encode_stale_offset_refuted.
+
 (* ---- non-vacuity ---- *)
 Example ex_tree : ebox :=
   ECont [109;111;111;102]%N 24 [ECont [116;114;97;102]%N 8 []; ELeaf (Ok [0;0;0;8;102;114;101;101]%N) (Ok [0;0;0;8;102;114;101;101]%N)].
@@ -570,4 +623,12 @@ Example ex_file_senc :
             [mkSeg false 0 [mkFrag (Some []) true [FCMdat; FCMoof []] 624] 624]
             [TMdat 8; TMoof []; TMoov (MoovChain 5 0); TFtyp] true,
         [[None; Some (1, 0, 8)]]).
+Proof. vm_compute. reflexivity. Qed.
+
+(* a segment-mode File with optimisation on: Encode, Size, EncodeSW, Info - three non-trivial outcomes, the same whichever encoder runs *)
+Example ex_hist : same_history [HEncode; HSize; HEncodeSW; HInfo] [HEncodeSW; HSize; HEncode; HInfo] (S := C02AggModel.afile).
+Proof. reflexivity. Qed.
+Example ex_hist_run :
+  map (fun o => match o with C02AggModel.OutBytes b => lenN (concat b) | C02AggModel.OutSize n => n | _ => 0 end)
+      (fst (run_hhist hfile_agg C02AggExamples.ex_file [HEncode; HSize; HEncodeSW; HInfo])) = [313; 313; 313; 0].
 Proof. vm_compute. reflexivity. Qed.
